@@ -1,6 +1,9 @@
 package main
 
-import "fmt"
+import (
+	"fmt"
+	"strings"
+)
 
 // caseInfo is one metric sent in one format.
 type caseInfo struct {
@@ -27,7 +30,7 @@ func evalOutcome(r *rec, ci caseInfo, accepted bool, row *Row, errText string, n
 		case ci.taglessMultiField():
 			class = "C16/influx-tagless-multi-field-line-misparsed"
 			msg = "a line without tags and with several fields is cut at the first comma of the field set (the measurement becomes \"name first-field\"): " + msg
-		case ci.flatDesyncing && format == fmtFlat:
+		case ci.flatDesyncing && format == fmtFlat && strings.HasSuffix(class, "-rejected-valid"):
 			class = "C16/flat-oversize-row-desyncs-stream"
 			msg = "the flat request carries a well-formed row over 10 KiB; the decoder rejects it without consuming its bytes and the rest of the stream is misread: " + msg
 		}
